@@ -132,6 +132,7 @@ func classifyMapRange(fd *ast.FuncDecl, rs *ast.RangeStmt, info *types.Info) (st
 	if len(collected) > 0 {
 		// every collected slice must be sorted after the loop, in the same function
 		sorted := map[types.Object]bool{}
+		weakSort := ""
 		ast.Inspect(fd.Body, func(n ast.Node) bool {
 			call, ok := n.(*ast.CallExpr)
 			if !ok || call.Pos() < rs.End() {
@@ -140,7 +141,11 @@ func classifyMapRange(fd *ast.FuncDecl, rs *ast.RangeStmt, info *types.Info) (st
 			if se, ok := call.Fun.(*ast.SelectorExpr); ok {
 				if pk, ok := se.X.(*ast.Ident); ok && (pk.Name == "sort" || pk.Name == "slices") && len(call.Args) >= 1 {
 					if a0, ok := ast.Unparen(call.Args[0]).(*ast.Ident); ok {
-						sorted[info.ObjectOf(a0)] = true
+						if why := comparatorNotTotal(call); why != "" {
+							weakSort = why
+						} else {
+							sorted[info.ObjectOf(a0)] = true
+						}
 					}
 				}
 			}
@@ -148,6 +153,9 @@ func classifyMapRange(fd *ast.FuncDecl, rs *ast.RangeStmt, info *types.Info) (st
 		})
 		for o := range collected {
 			if !sorted[o] {
+				if weakSort != "" {
+					return "order-sensitive", "collects entries into " + o.Name() + " in map order and sorts it with an ordering that " + weakSort
+				}
 				return "order-sensitive", "collects entries into " + o.Name() + " in map order without sorting it afterwards"
 			}
 		}
@@ -238,3 +246,59 @@ func nondetIn(fn *ssa.Function) []NondetSite {
 func fileOfFunc(p *Program, fn *ssa.Function) string { return p.DeclFile(fn) }
 
 var _ = strings.Contains
+
+// comparatorNotTotal: for a sort with a custom ordering function, the ordering
+// must compare the collected elements themselves (x[i], x[i].field). An ordering
+// that first passes the elements through a function (path.Dir, strings.ToLower,
+// a hash) treats distinct elements that the function maps to one value as equal,
+// and equal elements keep the order they arrived in — the map's.
+func comparatorNotTotal(call *ast.CallExpr) string {
+	if len(call.Args) < 2 {
+		return "" // sort.Strings, sort.Ints, slices.Sort: natural total order
+	}
+	fl, ok := ast.Unparen(call.Args[len(call.Args)-1]).(*ast.FuncLit)
+	if !ok {
+		return ""
+	}
+	why := ""
+	ast.Inspect(fl.Body, func(n ast.Node) bool {
+		ce, isCall := n.(*ast.CallExpr)
+		if !isCall {
+			return true
+		}
+		name := types.ExprString(ce.Fun)
+		switch name {
+		case "cmp.Compare", "strings.Compare", "cmp.Less", "bytes.Compare":
+			return true // comparison helpers over their arguments
+		}
+		// any other call whose argument mentions an element of the slice being sorted
+		for _, a := range ce.Args {
+			found := false
+			ast.Inspect(a, func(m ast.Node) bool {
+				if _, isIdx := m.(*ast.IndexExpr); isIdx {
+					found = true
+				}
+				if id, isID := m.(*ast.Ident); isID && fl.Type.Params != nil {
+					for _, fld := range fl.Type.Params.List {
+						for _, pn := range fld.Names {
+							if pn.Name == id.Name && !isIntTypeExpr(fld.Type) {
+								found = true
+							}
+						}
+					}
+				}
+				return true
+			})
+			if found {
+				why = "compares " + name + "(…) of the entries rather than the entries themselves: entries that " + name + " maps to the same value compare equal and keep map order"
+			}
+		}
+		return true
+	})
+	return why
+}
+
+func isIntTypeExpr(e ast.Expr) bool {
+	id, ok := e.(*ast.Ident)
+	return ok && id.Name == "int"
+}
